@@ -1,0 +1,151 @@
+//go:build verif
+
+package dicescript
+
+import (
+	"strings"
+	"sync"
+	"sync/atomic"
+
+	"golang.org/x/exp/rand"
+)
+
+// Read-only accessors for verification (no call sites in the package).
+
+// VerifInstr is one compiled instruction as (opcode name, operand).
+type VerifInstr struct {
+	Op      string
+	T       int
+	Operand any
+	// nested body for push.func / push.computed, nil otherwise
+	Body     []VerifInstr
+	BodyKind string
+}
+
+var verifOpNames [256]string
+var verifOpNamesOnce sync.Once
+
+// VerifOpName returns the mnemonic of an opcode (first word of CodeString).
+func VerifOpName(T CodeType) string {
+	verifOpNamesOnce.Do(func() {
+		for i := 0; i < 256; i++ {
+			verifOpNames[i] = verifOpName(CodeType(i))
+		}
+	})
+	return verifOpNames[T]
+}
+
+func verifOpName(T CodeType) string {
+	var sample any
+	switch T {
+	case typePushIntNumber, typePushArray, typePushDict, typeInvoke:
+		sample = IntType(0)
+	case typePushFloatNumber:
+		sample = float64(0)
+	case typePushString, typeInvokeSelf, typeAttrSet, typeAttrGet, typeLoadName, typeLoadNameWithDetail, typeLoadNameRaw:
+		sample = ""
+	case typePushComputed:
+		return "push.computed"
+	case typePushFunction:
+		return "push.func"
+	case typeDetailMark:
+		sample = BufferSpan{}
+	}
+	c := ByteCode{T: T, Value: sample}
+	s := ""
+	func() {
+		defer func() { _ = recover() }()
+		s = c.CodeString()
+	}()
+	if s == "" {
+		return "raw"
+	}
+	if i := strings.IndexByte(s, ' '); i >= 0 {
+		s = s[:i]
+	}
+	return s
+}
+
+func verifListing(code []ByteCode, n int) []VerifInstr {
+	if n > len(code) {
+		n = len(code)
+	}
+	out := make([]VerifInstr, 0, n)
+	for i := 0; i < n; i++ {
+		c := code[i]
+		in := VerifInstr{Op: VerifOpName(c.T), T: int(c.T), Operand: c.Value}
+		if v, ok := c.Value.(*VMValue); ok && v != nil {
+			switch v.TypeId {
+			case VMTypeFunction:
+				if fd, ok := v.Value.(*FunctionData); ok && fd.code != nil {
+					in.Body = verifListing(fd.code, fd.codeIndex)
+					in.BodyKind = "func"
+				}
+			case VMTypeComputedValue:
+				if cd, ok := v.Value.(*ComputedData); ok && cd.code != nil {
+					in.Body = verifListing(cd.code, cd.codeIndex)
+					in.BodyKind = "computed"
+				}
+			}
+		}
+		out = append(out, in)
+	}
+	return out
+}
+
+// VerifCode returns the compiled program of the last Parse.
+func (ctx *Context) VerifCode() []VerifInstr { return verifListing(ctx.code, ctx.codeIndex) }
+
+// VerifFuncCode / VerifComputedCode return the cached body code, nil if not compiled.
+func (fd *FunctionData) VerifCode() []VerifInstr {
+	if fd.code == nil {
+		return nil
+	}
+	return verifListing(fd.code, fd.codeIndex)
+}
+
+func (cd *ComputedData) VerifCode() []VerifInstr {
+	if cd.code == nil {
+		return nil
+	}
+	return verifListing(cd.code, cd.codeIndex)
+}
+
+// VerifMapShape is a snapshot of the ValueMap internals (sequential use only).
+type VerifMapShape struct {
+	ReadLen, DirtyLen, Misses int
+	Amended, DirtyNil         bool
+	ReadNil, ReadExpunged     int
+}
+
+func (m *ValueMap) VerifShape() VerifMapShape {
+	read, _ := m.read.Load().(readOnlyValueMap)
+	s := VerifMapShape{ReadLen: len(read.m), Amended: read.amended, DirtyNil: m.dirty == nil, DirtyLen: len(m.dirty), Misses: m.misses}
+	for _, e := range read.m {
+		p := atomic.LoadPointer(&e.p)
+		if p == nil {
+			s.ReadNil++
+		} else if p == expungedValueMap {
+			s.ReadExpunged++
+		}
+	}
+	return s
+}
+
+// VerifRoll64 / VerifRoll32 expose the word-to-face mappings.
+func VerifRoll64(src *rand.PCGSource, n int64) int64 { return _roll64(src, n, 0) }
+func VerifRoll32(src *rand.PCGSource, n int) int     { return _roll32(src, n) }
+
+// VerifGlobalSource returns the package-level generator.
+func VerifGlobalSource() *rand.PCGSource { return randSource }
+
+// VerifParseErrorLanguage returns the package-level language selector.
+func VerifParseErrorLanguage() int { return parseErrorLanguage }
+
+// VerifParserOffset returns the committed parse offset of the last Parse (or -1).
+func (ctx *Context) VerifParserOffset() int {
+	if ctx.parser == nil {
+		return -1
+	}
+	return ctx.parser.pt.offset
+}
